@@ -172,7 +172,7 @@ func VH_C06() {
 	vstub.Reach("c06")
 }
 
-const vMaxL = 8
+const vMaxL = 6
 
 // VH_C07: arbitrary input bytes never make a decoder panic, loop or allocate
 // out of proportion.
@@ -180,6 +180,7 @@ func VH_C07() {
 	l := vstub.Choose(0, vMaxL)
 	b := vstub.NondetBytes(l)
 	vstub.SetLoopBudget(8*l + 64)
+	vstub.SetEnumBound(l + 2)
 	var w REC
 	if vstub.Choose(0, 1) == 0 {
 		_ = w.UnmarshalBebop(b)
@@ -187,12 +188,19 @@ func VH_C07() {
 		fr := vstub.NewFragReader(b)
 		fr.Full = true
 		_ = w.DecodeBebop(fr)
+		// work in proportion to the input: the decoder may not keep polling an
+		// exhausted stream (natively observable form of the loop budget)
+		vstub.Assert("c07.proportion."+vShape, fr.Calls <= 8*l+64)
 	}
 	vstub.Reach("c07")
 }
 
 // VH_C07W: a valid encoding with a window of 1-2 arbitrary bytes at any offset.
 func VH_C07W() {
+	if !vThorough {
+		// quick tier: short valid encodings (containers of at most one element)
+		vMaxArr, vMaxStr, vMaxMap, vMaxDepth = 1, 1, 1, 1
+	}
 	v := vNondet_Rec(0)
 	enc := v.MarshalBebop()
 	if len(enc) == 0 {
@@ -201,10 +209,11 @@ func VH_C07W() {
 	}
 	off := vstub.Choose(0, len(enc)-1)
 	enc[off] = vstub.NondetU8()
-	if off+1 < len(enc) && vstub.Choose(0, 1) == 1 {
+	if vThorough && off+1 < len(enc) && vstub.Choose(0, 1) == 1 {
 		enc[off+1] = vstub.NondetU8()
 	}
 	vstub.SetLoopBudget(8*len(enc) + 64)
+	vstub.SetEnumBound(len(enc) + 2)
 	var w REC
 	if vstub.Choose(0, 1) == 0 {
 		_ = w.UnmarshalBebop(enc)
@@ -212,6 +221,7 @@ func VH_C07W() {
 		fr := vstub.NewFragReader(enc)
 		fr.Full = true
 		_ = w.DecodeBebop(fr)
+		vstub.Assert("c07.proportion."+vShape, fr.Calls <= 8*len(enc)+64)
 	}
 	vstub.Reach("c07w")
 }
@@ -227,7 +237,13 @@ func VH_C08W() {
 		vstub.Reach("c08w.nowrites")
 		return
 	}
-	fw := &vstub.FaultWriter{FailCall: vstub.Choose(0, probe.Calls-1), Err: vstub.NondetErr(), Short: vstub.Choose(0, 1), Recover: vstub.Choose(0, 1) == 1}
+	fw := &vstub.FaultWriter{FailCall: vstub.Choose(0, probe.Calls-1), Err: vstub.ErrFault, Recover: vstub.Choose(0, 1) == 1}
+	if vThorough || fw.FailCall == 0 {
+		// error value and short count are varied at every call in the thorough
+		// tier, at the first call in the quick tier
+		fw.Err = vstub.NondetErr()
+		fw.Short = vstub.Choose(0, 1)
+	}
 	err := v.EncodeBebop(fw)
 	vstub.Assert("c08.w.err", err != nil)
 	if err == nil {
@@ -247,7 +263,10 @@ func VH_C08R() {
 	fr := vstub.NewFragReader(enc)
 	fr.Full = true
 	fr.FailAt = vstub.Choose(0, len(enc)-1)
-	fr.Err = vstub.NondetErr()
+	fr.Err = vstub.ErrFault
+	if vThorough || fr.FailAt == 0 || fr.FailAt == len(enc)-1 {
+		fr.Err = vstub.NondetErr()
+	}
 	fr.EarlyErr = vstub.Choose(0, 1) == 1
 	vstub.SetLoopBudget(8*len(enc) + 64)
 	var w REC
